@@ -7,16 +7,19 @@ import os
 import subprocess
 import sys
 import apistream
+import apimodel
 import specgen
 
 EXTRA_COQ_FILES = ('GenFacts/SchemaOK.v',)
 RULE = ('histories of 2..3 files per process from the valid / assign / rejects program generators, some files written twice, plus '
         'targeted histories (same names with different origins and copy numbers, 0.0 vs -0.0 and 1 vs 1.0 vs True attribute values, '
         'queries before building); the last file of each history is rebuilt and written alone in a fresh subprocess and compared '
-        'byte for byte. Distinct by history index.')
-ASSUMPTIONS = ['objects renamed or re-originated after a first write are outside the generated histories (cached obname: see DESIGN D15)']
+        'byte for byte; P; write; Q; write against P; Q; write in a fresh process (Q: assignments incl. other kinds of values, origin_reference '
+        'changes to a second origin), and write; write of an unchanged specification. Distinct by history index.')
+ASSUMPTIONS = ['item.name is a plain attribute without setter: renaming an object after creation is not part of the public API and is not generated']
 PARTIAL = ('proved: a new DLISFile starts from the empty specification and only the mode flag is process state. Re-writing the SAME DLISFile '
-           'with DIFFERENT data is a known limitation (derived index values persist, D9) and is not generated here')
+           'with DIFFERENT data keeps values derived at the first write (known finding D9, replayed here); edits between writes are compared '
+           'with a fresh process for assignments and origin_reference changes')
 
 CHILD = r'''
 import sys, json
@@ -75,6 +78,27 @@ def targeted(rng):
             f([one_i], 1, extra_first='frames') , f([one_i], 1) + f([one_i], 1, extra_first='channels')]
 
 
+def rewrite_history(rng):
+    """P; write; Q; write in one process, against P; Q; write in a fresh process. Q only edits the specification:
+    assignments (incl. values of another kind) and origin_reference changes to another origin of the logical file."""
+    prog, _ = apistream.gen_program(rng, flavor='valid')
+    body = [s for s in prog if s['op'] != 'write']
+    fh = next((s.get('_fh_id') for s in body if s['op'] == 'origin'), 'H')
+    body.append({'op': 'origin', 'lf': 0, 'name': specgen.r_str('ORIGIN-77'), 'set_name': None, 'origin': specgen.r_int(77), '_fh_id': fh,
+                 'kw': {'file_set_number': specgen.r_int(3), 'creation_time': specgen.r_str('2020/01/01 00:00:00')}})
+    created = [s for s in body if s['op'] in ('origin', 'add', 'channel', 'frame')]
+    q = apistream.rekind_assignments(rng, body, limit=4)
+    tail = [s for s in apistream.add_assignments(rng, body) if s['op'] == 'assign' and s not in body
+            and s['_type'] not in ('calibration_measurement', 'parameter', 'computation', 'channel', 'frame')]
+    q += tail[:3]
+    movable = [i for i, s in enumerate(created) if s['op'] != 'origin' and s.get('lf', 0) == 0]
+    rng.shuffle(movable)
+    for i in movable[:rng.choice([0, 1, 2, 3])]:
+        q.append({'op': 'set_origin', 'obj': i, 'raw': specgen.r_int(77)})
+    rng.shuffle(q)
+    return body + [{'op': 'write'}] + q + [{'op': 'write'}], body + q + [{'op': 'write'}]
+
+
 def run(ctx):
     rng = ctx.rng('hist')
     n = 25 if ctx.tier == 'quick' else 300
@@ -107,6 +131,69 @@ def run(ctx):
         if k % 7 == 0:
             ctx.sample({'stream': 'K-history', 'files': sum(1 for s in prog if s['op'] == 'newfile'), 'writes': sum(1 for s in prog if s['op'] == 'write'),
                         'steps': len(prog)})
+    run_rewrites(ctx)
+
+
+def run_rewrites(ctx):
+    rng = ctx.rng('rewrite')
+    n = 25 if ctx.tier == 'quick' else 250
+    for k in range(n):
+        hist, fresh = rewrite_history(rng)
+        r = apistream.run_one(ctx, hist, 'K-api-rewrite')
+        ctx.count('K-rewrite', key=k)
+        det = {'history': apistream.strip_private(hist), 'fresh_program': apistream.strip_private(fresh)}
+        widx = [i for i, s in enumerate(hist) if s['op'] == 'write']
+        o1, o2 = r['outs'][widx[0]], r['outs'][widx[1]]
+        if o1[0] != 'ok':
+            ctx.stat('K-rewrite', 'first_write_failed')
+            continue
+        # an immediate second write of the unchanged specification must repeat the first
+        plain = hist[:widx[0] + 1] + [{'op': 'write'}]
+        rp = apimodel.Impl().run(plain)
+        if rp[-1][0] != 'ok' or rp[-1][1]['file'] != rp[-2][1]['file']:
+            ctx.violation('second-write-of-unchanged-specification-differs',
+                          {'program': apistream.strip_private(plain), 'second': rp[-1][0] if rp[-1][0] == 'ok' else rp[-1]})
+        try:
+            fr = fresh_run(fresh)
+        except Exception as e:  # noqa
+            ctx.violation('fresh-subprocess-failed', {'error': str(e)[:300]})
+            continue
+        q_hist = [o[0] for s, o in zip(hist, r['outs']) if s['op'] in ('assign', 'set_origin')]
+        q_fresh = [o for s, o in zip(fresh, fr['outs']) if s['op'] in ('assign', 'set_origin')]
+        if q_hist != q_fresh:
+            ctx.violation('edit-accepted-only-before-or-only-after-a-write', {**det, 'after_write': q_hist, 'fresh': q_fresh})
+            continue
+        ctx.stat('K-rewrite', 'compared_with_fresh_process')
+        ctx.stat('K-rewrite', 'origin_changes', sum(1 for s in hist if s['op'] == 'set_origin'))
+        f2 = o2[1]['file'].hex() if o2[0] == 'ok' else None
+        ff = fr['files'][-1] if fr['files'] and fr['outs'][-1] == 'ok' else None
+        if f2 != ff:
+            a = bytes.fromhex(f2) if f2 else b''
+            b = bytes.fromhex(ff) if ff else b''
+            pos = next((j for j in range(min(len(a), len(b))) if a[j] != b[j]), min(len(a), len(b)))
+            ctx.violation('rewritten-file-differs-from-fresh-process', {**det, 'second_write': o2[0] if o2[0] == 'ok' else o2,
+                                                                       'fresh_write': fr['outs'][-1], 'first_difference_at': pos,
+                                                                       'in_history': a[max(0, pos - 16):pos + 32].hex(), 'fresh_process': b[max(0, pos - 16):pos + 32].hex()})
+    # known finding D9 (also listed under C13): the same DLISFile written again with OTHER data keeps the index metadata of the first write
+    import numpy as np
+    import impl
+    from dliswriter import DLISFile
+
+    def spec():
+        df = DLISFile()
+        lf = df.add_logical_file()
+        lf.add_origin('O', file_set_number=1, creation_time='2020/01/01 00:00:00')
+        ch = lf.add_channel('IDX')
+        lf.add_frame('F', channels=[ch], index_type='BOREHOLE-DEPTH')
+        return df
+    df = spec()
+    impl.outcome(lambda: impl.write_real(df, data={'IDX': np.arange(0.0, 5.0)}))
+    o2 = impl.outcome(lambda: impl.write_real(df, data={'IDX': np.arange(10.0, 30.0, 2.0)}))
+    of = impl.outcome(lambda: impl.write_real(spec(), data={'IDX': np.arange(10.0, 30.0, 2.0)}))
+    ctx.count('K-rewrite', key='D9')
+    if o2[0] != 'ok' or of[0] != 'ok' or o2[1]['file'] != of[1]['file']:
+        ctx.violation('rewrite-with-other-data-differs-from-fresh-specification', {'first_data': '0..4', 'second_data': '10..28 step 2'},
+                      finding_key='D9-derived-persist')
 
 
 def replay(ctx, data):
